@@ -486,6 +486,39 @@ def work_d(table):
   return len(table), bad
 
 
+def repeat_probe(_):
+  """a polling loop logs the same text from the same line several times within one millisecond (the clock is
+  pinned): "appended exactly once" is per logging call - every call has its own record"""
+  sys.argv = sys.argv[:1]
+  import time
+  from unittest import mock
+  import openhtf as htf
+  from openhtf.util import logs
+  from vf import build
+  build.reset_process_globals()
+  bad = []
+  sent = []
+
+  def body(test):
+    uid = [k for k, v in htf.Test.TEST_INSTANCES.items() if v is t]
+    with mock.patch('time.time', return_value=time.time()):
+      for _ in range(4):
+        test.logger.warning('retrying %s', 'read')
+        sent.append('retrying read')
+      for _ in range(3):
+        logs.get_record_logger_for(uid[0]).info('poll: not ready')
+        sent.append('poll: not ready')
+  t = htf.Test(htf.PhaseOptions(name='poller')(body))
+  out = []
+  t.add_output_callbacks(out.append)
+  t.execute()
+  got = [r.message for r in out[0].log_records if r.message in ('retrying read', 'poll: not ready')]
+  if got != sent:
+    bad.append('identical messages logged by separate calls (same line, same millisecond) are not all in the record: %d of %d'
+               % (len(got), len(sent)))
+  return bad
+
+
 def main(chk):
   res = tlc.must_pass(tlc.run('Logs', 'Logs_mc.cfg', workers=8, heap='6g'), 'Logs design + emit')
   chk.add_tlc('Logs (routing, handler add/remove over histories)', res)
@@ -547,6 +580,9 @@ def main(chk):
         chk.violation(sig, det)
     for sig in pool.apply(fault_runs, (0,)):
       chk.violation(sig, dict(scenario='interrupted output stage'))
+    for sig in pool.apply(repeat_probe, (0,)):
+      chk.violation(sig, dict(scenario='polling loop'))
+    chk.traces += 1
     chk.traces += 3
     n, bad = pool.apply(work_d, (table,))
     chk.traces += n
